@@ -127,8 +127,9 @@ CLAIMED = {
               "if-ladder of buildInt, extracted as boolean formulas over its flags and range tests, yields the C++ "
               "literal type on all well-formed (suffix, base, magnitude-class) cases for each of the four (base, prefixed) argument "
               "pairs with which Num() actually calls it (decimal, octal, hex, binary); float suffixes select float/long "
-              "double/double; Num() maps 0x/0b/leading 0 to bases 16/2/8. Not decided: float accuracy in ulps, the digit "
-              "arithmetic of std::stoll/parse_num, UTF-8 encoding arithmetic."),
+              "double/double; Num() maps 0x/0b/leading 0 to bases 16/2/8; (5) \\u/\\U escapes are encoded with the UTF-8 table "
+              "(thresholds, lead bytes, shifts, masks and byte counts extracted per range arm). Not decided: float accuracy in "
+              "ulps, the digit arithmetic of std::stoll/parse_num."),
         technique="hash-use inventory + guard rule, table extraction, typestate by abstract interpretation, symbolic evaluation of the typing ladder on all abstract cases",
         ref="DESIGN.md section 4 C16"),
     "C18": dict(
